@@ -7,6 +7,7 @@ import (
 	goat "github.com/avos-io/goat"
 	"google.golang.org/grpc"
 	"google.golang.org/grpc/metadata"
+	"strings"
 	"sync"
 	"testing"
 
@@ -44,6 +45,10 @@ func c12Alphabet() []c12Shape {
 		{Name: "unary-nobody", Env: kit.EnvSpec{Method: um}, MaybeUnary: true},
 		{Name: "unary-badmd", Env: kit.EnvSpec{Method: um, Body: body, Wrap: true, HdrMD: badMD}, Malformed: true},
 		{Name: "unary-wrongdst", Env: kit.EnvSpec{Method: um, Body: body, Wrap: true, Dst: sp("other")}, Malformed: true},
+		{Name: "unary-dst-other-case", Env: kit.EnvSpec{Method: um, Body: body, Wrap: true, Dst: sp(strings.ToUpper(kit.ServerName))}, Malformed: true},
+		{Name: "unary-dst-prefix", Env: kit.EnvSpec{Method: um, Body: body, Wrap: true, Dst: sp(kit.ServerName[:len(kit.ServerName)-1])}, Malformed: true},
+		{Name: "unary-dst-padded", Env: kit.EnvSpec{Method: um, Body: body, Wrap: true, Dst: sp(kit.ServerName + " ")}, Malformed: true},
+		{Name: "open-dst-other-case", Env: kit.EnvSpec{Method: sm, Dst: sp(strings.ToUpper(kit.ServerName))}, Malformed: true},
 		{Name: "unknown-service", Env: kit.EnvSpec{Method: sp("/nope.Svc/u"), Body: body, Wrap: true}, Malformed: true},
 		{Name: "unknown-method", Env: kit.EnvSpec{Method: sp("/" + kit.SvcName + "/nope"), Body: body, Wrap: true}, Malformed: true},
 		{Name: "unparsable-method", Env: kit.EnvSpec{Method: sp("nomethod"), Body: body, Wrap: true}, Malformed: true},
@@ -114,9 +119,32 @@ func genC12(t *rapid.T) C12Case {
 	al := c12Alphabet()
 	n := rapid.IntRange(1, 40).Draw(t, "len")
 	c := C12Case{Ser: rapid.Bool().Draw(t, "ser"), Burst: rapid.Bool().Draw(t, "burst"), Stats: rapid.IntRange(0, 2).Draw(t, "stats") == 0, BusyHandlers: rapid.IntRange(0, 2).Draw(t, "busy") == 0, SlowUnary: rapid.SampledFrom([]int{0, 0, 1, 3}).Draw(t, "slow_unary")}
+	if rapid.IntRange(0, 4).Draw(t, "lifecycle") == 0 {
+		// a whole life of the echo stream and what comes after it: open, 0..2 messages, the caller's end (half-close or
+		// reset), some traffic on the other id, and then more bodies for the stream that is gone - one envelope at a time
+		idx := map[string]int{}
+		for i, sh := range al {
+			idx[sh.Name] = i
+		}
+		id := uint64(rapid.IntRange(1, 2).Draw(t, "life_id"))
+		other := 3 - id
+		c.Burst = false
+		c.Seq = append(c.Seq, C12Sym{Shape: idx["open"], ID: id})
+		for k := rapid.IntRange(0, 2).Draw(t, "life_bodies"); k > 0; k-- {
+			c.Seq = append(c.Seq, C12Sym{Shape: idx["body"], ID: id})
+		}
+		c.Seq = append(c.Seq, C12Sym{Shape: idx[rapid.SampledFrom([]string{"trailer-ok", "reset"}).Draw(t, "life_end")], ID: id})
+		for k := rapid.IntRange(0, 2).Draw(t, "life_noise"); k > 0; k-- {
+			c.Seq = append(c.Seq, C12Sym{Shape: idx[rapid.SampledFrom([]string{"unary", "unary-wrongdst", "no-header", "unknown-method"}).Draw(t, "noise")], ID: other})
+		}
+		for k := rapid.IntRange(1, 2).Draw(t, "life_late"); k > 0; k-- {
+			c.Seq = append(c.Seq, C12Sym{Shape: idx["body"], ID: id})
+		}
+		n = rapid.IntRange(0, 6).Draw(t, "life_tail")
+	}
 	for i := 0; i < n; i++ {
-		if i > 0 && rapid.IntRange(0, 2).Draw(t, "repeat") == 0 {
-			c.Seq = append(c.Seq, c.Seq[i-1]) // runs of the same envelope fill the one-slot queues
+		if i > 0 && len(c.Seq) > 0 && rapid.IntRange(0, 2).Draw(t, "repeat") == 0 {
+			c.Seq = append(c.Seq, c.Seq[len(c.Seq)-1]) // runs of the same envelope fill the one-slot queues
 			continue
 		}
 		c.Seq = append(c.Seq, C12Sym{Shape: rapid.IntRange(0, len(al)-1).Draw(t, "shape"), ID: uint64(rapid.IntRange(1, 2).Draw(t, "id"))})
@@ -420,7 +448,13 @@ func execC12(t *testing.T, c C12Case) (v Verdict) {
 	if len(c.Seq) <= 4 {
 		lenClass = fmt.Sprintf("len=%d", len(c.Seq))
 	}
-	v.Info = kit.CaseInfo{Labels: []string{lenClass, fmt.Sprintf("mixed=%v", malformed > 0 && wellformed > 0)}, NonTrivial: (malformed > 0 && wellformed > 0) || same,
+	late := 0
+	for id, n := range bodiesAfterEnd {
+		if sState[id] != "unknown" {
+			late += n
+		}
+	}
+	v.Info = kit.CaseInfo{Labels: []string{lenClass, fmt.Sprintf("mixed=%v", malformed > 0 && wellformed > 0), fmt.Sprintf("body_after_stream_end=%v", late > 0)}, NonTrivial: (malformed > 0 && wellformed > 0) || same,
 		Key: fmt.Sprintf("%v/%v", c.Seq, c.Ser), Sample: map[string]any{"sequence": c.names()}}
 	if v.Fail != "" {
 		v.Detail = map[string]any{"sequence": c.names(), "wire": tapSummary(tap, 100)}
